@@ -92,6 +92,8 @@ class World:
         self.garbage, self.garbage_p = garbage, garbage_p  # hostile value at any position
         self.returns = []              # (response path, value returned by an explicit resolver)
         self.dir_calls = []            # (directive, path, canon(directive_args), args) recorded by @vtrec
+        self.source_log = []           # subscription source events: ("start", field, canon(args)) ("event", i) ("finish",)
+        self.events = []               # event spec list for the subscription source: "obj" | "null"
         self.calls = []                # (T.f, parent ident, canon(args), id(ctx))
         self.tr_calls = []             # (level, abstract, Tparent.field)
         self.anomalies = []            # things a resolver saw that cannot be right
@@ -203,8 +205,8 @@ class World:
             return o
         return class_named(hints["dflt"])(self, meta)
 
-    def root_object(self, type_name, style_rng=None):
-        meta = Meta(type_name, "root", {"fr": type_name, "tr": type_name, "cd": type_name, "dflt": type_name})
+    def root_object(self, type_name, ident="root"):
+        meta = Meta(type_name, ident, {"fr": type_name, "tr": type_name, "cd": type_name, "dflt": type_name})
         style = self.s.types[type_name].style
         if style == "dict":
             o = VDict()
@@ -315,7 +317,7 @@ class World:
         pid = ident_of(parent)
         self.calls.append(("%s.%s" % (T, fname), pid, canon(args), id(ctx)))
         m = meta_of(parent)
-        if m is not None and m.t != T and m.id != "root":
+        if m is not None and m.t != T and m.id != "root" and not m.id.startswith("ev"):
             self.anomalies.append(("parent-type", T, fname, m.t, pid))
         if info.field_name != fname or info.parent_type.name != T:
             self.anomalies.append(("info", T, fname, info.field_name, info.parent_type.name))
@@ -331,6 +333,25 @@ class World:
             raise make_exception(out[0], out[2])
         self.returns.append((tuple(info.path.as_list()), out[1]))
         return out[1]
+
+    def event(self, i, type_name):
+        kind = self.events[i]
+        if kind == "null":
+            return None
+        return self.root_object(type_name, "ev%d" % i)
+
+    async def source(self, T, fname, parent, args, ctx, info):
+        """Subscription source stream: yields the configured events, recording what happens."""
+        self.source_log.append(("start", fname, canon(args), ident_of(parent)))
+        bad = inputs_common.args_conform(self.s, self.s.types[T].fields[fname].args, args)
+        if bad:
+            self.anomalies.append(("delivered-argument-type", "%s.%s" % (T, fname), bad))
+        for i in range(len(self.events)):
+            if self.sched is not None:
+                await self.sched.gate("s:%s:ev%d" % (fname, i))
+            self.source_log.append(("event", i))
+            yield self.event(i, T)
+        self.source_log.append(("finish",))
 
     async def default_resolve(self, parent, args, ctx, info):
         """custom_default_resolver: same contract as the built-in default resolver."""
